@@ -74,6 +74,7 @@ ROOT_KINDS = (["Torso"] * 8 + ["Node"] * 4 + ["ContainerGeneration", "ItemWithBa
 
 MODEL_MODULE = "test.dataset.example_classes"   # where the domain classes live (harness/c05.py also uses generated models)
 SCAL_TYPES: Dict[str, Dict[str, str]] = {}      # generated models: class -> field -> scalar type name
+FALSY_FIELDS: Dict[str, Tuple[str, str]] = {}   # generated models: class -> ("len"|"bool", field): bool(instance) follows that field
 
 
 def model_module():
@@ -340,7 +341,11 @@ def gen_scalars(rng: core.Rng, cls: str, idx: int) -> Dict[str, Any]:
         mk = {"int": lambda: rng.randint(-2, 5), "float": num, "str": lambda: f"s{rng.randint(0, 4)}",
               "bool": lambda: rng.chance(0.5), "Optional[float]": lambda: rng.choice([None, 0.5, 2.0]),
               "Optional[int]": lambda: rng.choice([None, 0, 7]), "List[str]": lambda: [f"t{rng.randint(0, 2)}" for _ in range(rng.randint(0, 2))]}
-        return {f: mk[t]() for f, t in SCAL_TYPES[cls].items()}
+        vals = {f: mk[t]() for f, t in SCAL_TYPES[cls].items()}
+        ff = FALSY_FIELDS.get(cls)
+        if ff and ff[1] in vals and rng.chance(0.5):      # make the instance FALSY at conversion time
+            vals[ff[1]] = {"int": 0, "float": 0.0, "bool": False, "List[str]": []}.get(SCAL_TYPES[cls][ff[1]], vals[ff[1]])
+        return vals
     if cls in ("Position", "Position4D", "Position5D"):
         return {f: num() for f in SCAL[cls]}
     if cls == "Orientation":
@@ -400,6 +405,8 @@ def gen_graph(rng: core.Rng, max_objs: int = 12) -> dict:
                 objs[i]["r"][f] = [] if (opt and rng.chance(p_none if 2 * len(objs) >= n else p_none / 3)) else [pick(target)]
             else:
                 k = rng.choice([0, 1, 2, 2, 3, 3, 4, 5])
+                if FALSY_FIELDS.get(objs[i]["c"]) == ("len", f) and rng.chance(0.4):
+                    k = 0                                    # an empty container-like object: falsy through __len__
                 objs[i]["r"][f] = [pick(target) for _ in range(k)]
 
     root = new(rng.choice(ROOT_KINDS))
@@ -520,6 +527,20 @@ def run_impl(descr) -> Dict[str, Any]:
         return {"exc": f"{type(e).__name__}: {str(e)[:120]}"}
     heap, r, anomalies = dump(back, reverse=True)
     return {"heap": heap, "root": r, "anomalies": anomalies, "py_iso": py_iso(root, back), "_objs": (root, back)}
+
+
+def falsy_features(descr) -> Dict[str, int]:
+    """How many objects of the case are falsy (bool(obj) is False through a user __len__/__bool__) and where they sit."""
+    objs = build(descr)
+    falsy = [not o for o in objs]
+    single = coll = 0
+    for o in descr["objs"]:
+        for f, kind, _t, _o in REFS.get(o["c"], []):
+            for k in o["r"].get(f, []):
+                if falsy[k]:
+                    single += kind == "one"
+                    coll += kind == "many"
+    return {"falsy_objs": sum(falsy), "falsy_behind_single_ref": single, "falsy_in_collection": coll, "falsy_root": int(falsy[descr["root"]])}
 
 
 def input_heap(descr):
